@@ -25,7 +25,21 @@ def run(ck, P):
             "under tmp->type > M_SRC_TYPE_FD, RM only), (d) the descriptor of a PS/FD source carrying M_SRC_FD_AUTOCLOSE (src_priv_dtor); no "
             "other path can close a user descriptor", floor=6)
     closes = list(P.calls_to("close"))
-    ck.need(len(closes) >= 6, "close() call sites shrank to %d" % len(closes))
+    ck.need(len(closes) >= 3, "close() call sites shrank to %d" % len(closes))
+    required = {("init_pubsub_fd", "mod->pubsub_fd[0]"): "read end of the module pipe on the failure path of init_pubsub_fd",
+                ("init_pubsub_fd", "mod->pubsub_fd[1]"): "write end of the module pipe on the failure path of init_pubsub_fd",
+                ("reset_module", "mod->pubsub_fd[1]"): "write end of the module pipe when the module stops",
+                ("poll_destroy", "fd"): "the context's epoll handle", ("poll_set_new_evt", "tmp->fd_src.fd"): "internal descriptors on RM",
+                ("src_priv_dtor", "fd"): "auto-close descriptors of PS/FD sources"}
+    have = set()
+    for ev in closes:
+        exq = rules.Expander(ev.fn, stable=False)
+        have.add((ev.fn.name, exq.at(ev, ev.args[0])))
+        have.add((ev.fn.name, S(ev.args[0])))
+    for (fnn, arg_), what_ in sorted(required.items()):
+        present = any(h[0] == fnn and (h[1] == arg_ or h[1].endswith("->" + arg_) or h[1].endswith(arg_)) for h in have)
+        ck.ob("C20.1-WHO-CLOSES", "%s:%s:must close %s" % ("Lib/core", fnn, arg_), present,
+              "%s is closed in %s" % (what_, fnn) if present else "%s is no longer closed in %s: the descriptor leaks on that path" % (what_, fnn), nontrivial=False)
     for ev in closes:
         f = ev.fn
         ck.analysed(f)
@@ -96,6 +110,20 @@ def run(ck, P):
     cps = list(P.calls_to("create_priv_fd"))
     okc = okc and {e.fn.name for e in cps} == {"poll_set_new_evt"} and all(has(X.facts(e.fn, e), "(flag == %d)" % E["ADD"], True) or has(X.facts(e.fn, e), "flag", False) for e in cps)
     ck.ob("C20.2-WHO-OPENS", cp.site("only on ADD"), okc, "internal descriptors are created only by poll_set_new_evt(ADD): %s" % okc)
+    # an internal descriptor is created only together with the poll record (first ADD): ADD must be idempotent
+    ps_ = P.fn("poll_set_new_evt")
+    bad_p = None
+    n_ = 0
+    for path in ps_.paths():
+        evs = list(rules.path_events(ps_, path))
+        if any(e in cps for e in evs):
+            n_ += 1
+            if rules.path_assumes(path).get("tmp->ev") is not False:
+                bad_p = path
+    ck.ob("C20.2-WHO-OPENS", ps_.site("descriptor only with a fresh poll record"), bad_p is None and n_ > 0,
+          "%d path(s) reach create_priv_fd, all for a source that had no poll record yet" % n_ if bad_p is None else
+          "create_priv_fd() is reachable for a source that is already registered (tmp->ev set): a second ADD (tick set from on_start during loop start, "
+          "registration while paused followed by resume) overwrites and leaks the first descriptor", path=rules.fmt_path(ps_, bad_p) if bad_p else None)
     cs = P.fn("create_src")
     dups = [e for e in cs.calls("dup")]
     okd = bool(dups)
